@@ -153,7 +153,8 @@ impl Property for C15 {
         "case = pair of descriptors over small adversarial pools (names a/ab/a_b/b..., values ''/a/b/ab/ba/e-acute/0xff-like, label \
          names a/b/ab/ba/c), the second derived from the first by: nothing, permuting insertion orders and hasher seeds, re-splitting \
          the fq name into namespace/subsystem/name, boundary-shifting name/values, moving a name between constant and variable \
-         labels, changing one value / the help / a label name; built through Desc::new, Opts and HistogramOpts. Oracle: independently \
+         labels, changing one value / the help / a label name, or (10%) one component replaced by a 24-83 character string in A \
+         and by that string with a region removed / repeated / one character changed in B; built through Desc::new, Opts and HistogramOpts. Oracle: independently \
          computed structural keys <=> equality of id / dim_hash, and Registry::register verdicts follow the keys. Non-trivial: the pair \
          differs only by a boundary shift, only by order/route, or only by const-vs-variable placement. Distinct = decoded choices."
     }
@@ -283,6 +284,72 @@ impl Property for C15 {
             }
         }
 
+        // 10% of cases: one component (name, a constant value, the help, a constant or variable label name) is a long string
+        // (24-83 characters) in A and a structural variant of it in B: a region removed or repeated (B = s[..x] + s[y..]), one
+        // character changed, or nothing changed. Hash functions that work on fixed-size chunks, fold, or look at a prefix
+        // separate short strings perfectly and go wrong exactly here.
+        let mut a = a;
+        let mut long_component = false;
+        if src.chance(24) {
+            b = a.clone();
+            let len = 24 + src.below(60);
+            let off = src.below(37);
+            const ALPHA: &[u8] = b"abcdefghijklmnopqrstuvwxyz0123456789_";
+            let base: Vec<u8> = (0..len).map(|i| ALPHA[(off + i) % ALPHA.len()]).collect();
+            let variant: Vec<u8> = match src.below(4) {
+                0 | 1 => {
+                    let x = src.below(len + 1);
+                    let y = src.below(len + 1);
+                    base[..x].iter().chain(base[y..].iter()).copied().collect()
+                }
+                2 => {
+                    let mut v = base.clone();
+                    let p = src.below(len);
+                    v[p] = if v[p] == b'q' { b'r' } else { b'q' };
+                    v
+                }
+                _ => base.clone(),
+            };
+            let ident = |v: &[u8]| -> String {
+                let s = String::from_utf8(v.to_vec()).unwrap();
+                if s.is_empty() || s.as_bytes()[0].is_ascii_digit() {
+                    format!("k{}", s)
+                } else {
+                    s
+                }
+            };
+            let (sa, sb) = (ident(&base), ident(&variant));
+            match src.below(5) {
+                1 if !a.consts.is_empty() => {
+                    a.consts[0].1 = sa;
+                    b.consts[0].1 = sb;
+                }
+                2 => {
+                    a.help = sa;
+                    b.help = sb;
+                }
+                3 if !a.consts.is_empty() => {
+                    a.consts[0].0 = sa;
+                    b.consts[0].0 = sb;
+                }
+                4 if !a.vars.is_empty() => {
+                    a.vars[0] = sa;
+                    b.vars[0] = sb;
+                }
+                _ => {
+                    a.ns.clear();
+                    a.sub.clear();
+                    b.ns.clear();
+                    b.sub.clear();
+                    a.name = sa;
+                    b.name = sb;
+                }
+            }
+            only_order = false;
+            shift = false;
+            placement = false;
+            long_component = true;
+        }
         let da = match build(&a) {
             Ok(d) => d,
             Err(e) => return fail("valid-descriptor-rejected", format!("{:?}: {}", a, e)),
@@ -328,7 +395,10 @@ impl Property for C15 {
             format!("{}{}", fq(s), c.iter().map(|x| x.1.as_str()).collect::<String>())
         };
         let real_shift = shift && !same_id && cat(&a) == cat(&b);
-        rep.nontrivial = real_shift || (only_order && same_id && same_dim) || (placement && !same_dim);
+        rep.nontrivial = real_shift || (only_order && same_id && same_dim) || (placement && !same_dim) || (long_component && !(same_id && same_dim));
+        if long_component {
+            rep.class("long-component-and-structural-variant");
+        }
         if real_shift {
             rep.class("boundary-shift-pair");
         }
